@@ -1190,6 +1190,20 @@ def methodDecl (fns : List (String × FnDecl)) (enums : List (String × List (St
       | none => none
   | _, _ => none
 
+-- [errors] BEGIN ------------------------------------------------------------------------------------
+/-- further candidate keys for a call `T::f(a)` with ONE argument that is a variant of an enum `E` of the
+    generated tables: the trait impl `From<E> for T::from`.  (`callKeys` names the impl after `typeName a`,
+    which for an enum value is the path of the VARIANT, except for the two enums `userTypeName` knows; the
+    dynamic type of a variant of `E` is `E`.)  Tried only when `callKeys` found nothing. -/
+def enumFromKeys (enums : List (String × List (String × Nat))) (fr : Frame) (segs : List String) :
+    List Value → List String
+  | [.enumv p _] =>
+    match enumOfVariant enums p with
+    | some t => ["From<" ++ t ++ "> for " ++ canon fr.selfTy segs]
+    | none => []
+  | _ => []
+-- [errors] END --------------------------------------------------------------------------------------
+
 /-- bind the arguments to the parameter patterns (ascribing the declared types) -/
 def bindParams : Nat → String → List (Pat × String) → List Value → Option (List (String × Value))
   | 0, _, _, _ => none
@@ -1257,6 +1271,15 @@ def eval : Nat → Ctx → Frame → Expr → St → Res
                 | .tuple [v, _] => .val v st
                 | _ => .stuck "internal: callDecl result"
             | none =>
+            -- [errors] BEGIN: `T::from(a)` with `a` a variant of an enum `E` of the tables: `From<E> for T::from`
+            match lookupFn ctx.fns (enumFromKeys ctx.enums fr segs vs) with
+            | some d =>
+              (callDecl n ctx d .unit vs st).bind fun rv st =>
+                match rv with
+                | .tuple [v, _] => .val v st
+                | _ => .stuck "internal: callDecl result"
+            | none =>
+            -- [errors] END
               -- the remaining built-in rules: integer conversions, `size_of::<T>()`; then the dictionary
               firstRule (intConvCall (canon fr.selfTy segs) vs st)
                 (match vs, sizeOf ctx.sizes (lastSeg segs) with
@@ -1302,6 +1325,18 @@ def eval : Nat → Ctx → Frame → Expr → St → Res
               | none =>
                 firstRule (ctx.ext.method ctx.inputs rv m vs st) (.stuck "method call without a rule")
           | _ => .stuck "internal: evalList result"
+    -- [errors] BEGIN: `&mut *p` where `p` is an object of an extension dictionary (a raw pointer): the
+    -- reborrow of the place the dictionary's `deref` rule gives for `*p`.  VALUE SEMANTICS: what comes back
+    -- is the pointee's content; a local bound to it holds a copy, and writes to that copy are seen by later
+    -- reads through the same local only (not through `p`).  A dictionary that gives `deref` on a pointer
+    -- vouches that the functions it is used for reach the pointee through one name at a time (as in
+    -- `let ctx = &mut *ctx;`, which shadows the pointer).  On every other value `&mut` stays without a rule.
+    | .unary .refMut (.unary .deref e) =>
+      (eval n ctx fr e st).bind fun v st =>
+        match v with
+        | .ext tag args => runUnary ctx .deref (.ext tag args) st
+        | _ => .stuck "&mut borrow"
+    -- [errors] END
     | .unary op e => (eval n ctx fr e st).bind fun v st => runUnary ctx op v st
     | .binary .and a b =>
       -- `&&` evaluates its right operand only if the left one is true
